@@ -19,7 +19,12 @@ def mutations(r, buf, marks, quick):
         else:
             cand = {0, 1, 2, 3, 4, 5, 6, 8, cur + 1, cur - 1, cur + 2, cur - 2, cur + 4, 0xffff, 0xfffe, 0xfffc, 0x8000, 0x7fff, n - pos, n, r.getrandbits(16), r.randrange(0, 64)}
         cand = [v & (0xffffffff if size == 4 else 0xffff) for v in cand if v != cur]
-        for v in r.sample(cand, min(per, len(cand))):
+        pick = r.sample(cand, min(per, len(cand)))
+        if what.endswith("veclen"):
+            # counts whose product with an element size of 2..48 wraps around 2^32 to a small value
+            wraps = [2**32 // e + k for e in (2, 3, 4, 6, 8, 12, 16, 24, 32, 48) for k in (0, 1)]
+            pick += r.sample(wraps, 5 if quick else 20)
+        for v in pick:
             m = bytearray(buf); m[pos:pos + size] = v.to_bytes(size, "little"); out.append(bytes(m))
     cuts = range(0, n) if n <= 96 and not quick else sorted(set(r.randrange(0, n) for _ in range(12)) | {n - 1, n - 2, n - 4, 8, 7, 4, 0})
     for k in cuts:
@@ -80,12 +85,12 @@ def deep_buffer(levels, via):
     return e.finish(cur)[0]
 
 
-def gen(ctx):
+def gen(ctx, extra_schemas=None):
     r = ctx.rng
     blocks, expect_ok = [], []
     nschema = 40 if ctx.quick() else 600
     nbuf = 6 if ctx.quick() else 12
-    schemas = [fbenc.random_schema(r) for _ in range(nschema)] + hand_schemas()
+    schemas = [fbenc.random_schema(r, nested=(i % 3 == 2)) for i in range(nschema)] + hand_schemas() + (extra_schemas or [])
     for (tabs, uns) in schemas:
         lines = [fbenc.schema_line(tabs, uns)]
         exp = [None]
@@ -94,6 +99,8 @@ def gen(ctx):
             ws = r.random() < 0.25
             ident = r.choice([None, None, b"ABCD", b"A\0CD", bytes(r.randrange(256) for _ in range(4))])
             knobs = {k: True for k in ("shuffle_fields", "long_vtable", "no_vt_share", "extra_pad") if r.random() < 0.3}
+            # nested buffers placed at a multiple of 4 only: the verifier must reject them when their content needs more
+            if r.random() < 0.2: knobs["misalign_nested"] = True
             try:
                 buf, marks, minal = fbenc.encode_table_root(r, tabs, uns, ti, ident, ws, knobs)
             except RecursionError:
@@ -103,10 +110,11 @@ def gen(ctx):
                 i = "-" if idreq is None else idreq.hex()
                 return "verify t%d %s %s %d %s" % (ti, v, i, shift, b.hex() if b else "-")
             # the valid buffer under several identifier requests and placements
-            lines.append(line(buf)); exp.append(True)
+            good = None if knobs.get("misalign_nested") else True
+            lines.append(line(buf)); exp.append(good)
             if ident is not None:
-                lines.append(line(buf, idreq=ident)); exp.append(None if b"\0" in ident else True)
-                lines.append(line(buf, "typedsize" if ws else "typed", ident)); exp.append(True)
+                lines.append(line(buf, idreq=ident)); exp.append(None if b"\0" in ident else good)
+                lines.append(line(buf, "typedsize" if ws else "typed", ident)); exp.append(good)
                 lines.append(line(buf, idreq=b"WXYZ")); exp.append(False)
             for sh in (4, 8, 2):
                 lines.append(line(buf, shift=sh)); exp.append(None)
@@ -190,7 +198,8 @@ def run(ctx):
                 ad, ln, al = (int(x) for x in acc.split(":"))
                 if ad < 0 or ad + ln > n:
                     spec_fail.append((i, "accepted buffer: reader access %s outside [0,%d)" % (acc, n))); break
-                if al > 1 and ln > 0 and shift % max(maxal, int(t[1].split(":")[2]) if t[1].startswith("st:") else maxal) == 0 and (shift + ad) % al != 0:
+                # wherever the buffer lies: alignment is checked on absolute addresses (the buffer address is `shift` mod 4096)
+                if al > 1 and ln > 0 and (shift + ad) % al != 0:
                     spec_fail.append((i, "accepted buffer: reader access %s misaligned (buffer at %d mod 4096)" % (acc, shift))); break
         if exp[i] is True and not o.startswith("ok"):
             spec_fail.append((i, "conforming buffer from the independent encoder rejected"))
@@ -211,6 +220,13 @@ def run(ctx):
                    "stderr": (err_c + err_m)[-1500:]}, no_failing_input=True)
     nver = sum(1 for l in lines if l.startswith("verify"))
     nok = sum(1 for o in a if o.startswith("ok"))
+    nested_sch = nested_ok = nested_rej = 0; cur_nested = False
+    for l, o in zip(lines, a):
+        if l.startswith("schema"):
+            cur_nested = ":nt:" in l or ":ns:" in l; nested_sch += cur_nested
+        elif cur_nested and l.startswith("verify"):
+            if o.startswith("ok"): nested_ok += 1
+            else: nested_rej += 1
     rej = {}
     ctx.cov.update({
         "evaluations": nver, "distinct_nontrivial": len(set(structural_hash(l) for l in lines if l.startswith("verify") and len(l) > 60)),
@@ -221,10 +237,11 @@ def run(ctx):
                 "nesting chains of 1..400 levels through table / table-vector / union-vector hops; struct roots. Each line: C verdict + the reader walk's "
                 "access list vs the model's verdict + access list. distinct = verify lines by hash.",
         "schemas": len(blocks), "accepted": nok, "rejected": nver - nok,
+        "schemas_with_nested_roots": nested_sch, "nested_schema_lines_accepted": nested_ok, "nested_schema_lines_rejected": nested_rej,
         "traces_validated_against_impl": nver, "correspondence_disagreements": len(idx), "spec_oracle_failures": len(spec_fail)})
     oks = [i for i, o in enumerate(a) if o.startswith("ok")]
     ctx.samples = [{"op": lines[i][:400], "c": a[i][:400], "model": b[i][:400]} for i in (oks[:2] + [1, len(lines) - 1])]
-    ctx.notes = ["nested buffers (nested_flatbuffer fields) are not in the model: see known finding nested-root-not-checked",
+    ctx.notes = ["nested table and struct roots are part of the model, the theorem and this run (every third schema has nested_flatbuffer fields; nested buffers are also placed at multiples of 4 only, which must be rejected when their content needs more)",
                  "the reader side is the macro text of flatbuffers_common_reader.h emitted by the current compiler, driven with run-time ids; "
                  "per-schema generated wrappers are instances of those macros",
                  "buffer placement: address congruent to `shift` mod 4096; theorems assume the buffer start aligned to the largest alignment used"]
